@@ -203,11 +203,11 @@ def gen_cases(rng, tier):
         cs.append(Case("s 2048 " + "p" * 4100 + "c" * 4101, "slot-2048"))
         cs.append(Case("s 2048 " + ("p" * 700 + "c" * 650) * 5 + "c" * 300, "slot-2048"))
         # every schedule prefix of a fixed length, then round-robin
-        for L, shape, nq in ((16, ["p", "cc"], 2), (14, ["pp", "c"], 2), (13, ["p", "p"], 2)):
+        for L, shape, nq in ((17, ["p", "cc"], 2), (14, ["pp", "c"], 2), (13, ["p", "p"], 2), (13, ["pc", "cp"], 2)):
             pr = progs_str(mk_progs(shape))
             for bits in itertools.product("01", repeat=L):
                 cs.append(Case("q %d 2 %s %s" % (nq, pr, "".join(bits)), "all-prefixes-2thr"))
-        for L, shape, nq in ((9, ["p", "p", "c"], 2), (9, ["p", "c", "c"], 2)):
+        for L, shape, nq in ((10, ["p", "p", "c"], 2), (10, ["p", "c", "c"], 2)):
             pr = progs_str(mk_progs(shape))
             for bits in itertools.product("012", repeat=L):
                 cs.append(Case("q %d 2 %s %s" % (nq, pr, "".join(bits)), "all-prefixes-3thr"))
